@@ -57,6 +57,30 @@ fn main() {{
     for k in 0..n {{
         hm.insert(k * 7, -(k as i64));
     }}
+    // filled to the brim, then mostly emptied: tombstones in the table
+    let mut hm_del: HashMap<u64, u64> = HashMap::with_capacity(112);
+    let mut hs_del: HashSet<u32> = HashSet::with_capacity(112);
+    for k in 0..112u64 {{
+        hm_del.insert(k, k * k);
+        hs_del.insert(k as u32 * 2);
+    }}
+    for k in 0..112u64 {{
+        if k % 3 != 0 {{
+            hm_del.remove(&k);
+            hs_del.remove(&(k as u32 * 2));
+        }}
+    }}
+    let mut bm_del: BTreeMap<u16, u16> = (0..200u16).map(|k| (k, k + 1)).collect();
+    for k in 0..200u16 {{
+        if k % 5 != 0 {{
+            bm_del.remove(&k);
+        }}
+    }}
+    let mut vd_del: VecDeque<u8> = (0..20u8).collect();
+    for _ in 0..15 {{
+        vd_del.pop_front();
+    }}
+    vd_del.extend(100..110u8);
     let mut hm_key: HashMap<Key, String> = HashMap::new();
     hm_key.insert(Key {{ a: 1, b: -1 }}, "one".to_string());
     hm_key.insert(Key {{ a: 2, b: -2 }}, "two".to_string());
@@ -86,10 +110,29 @@ fn main() {{
     TL_A.with(|c| c.set(78));
     let g = unsafe {{ std::ptr::read_volatile(&raw const G_MUT) }} + G_U32 as i64;
     let r = stop_here(g as u64);
-    println!("{{r}} {{}} {{}} {{}} {{}} {{}} {{}} {{}} {{}} {{}} {{}} {{}} {{}} {{}} {{}} {{}} {{}} {{}} {{}} {{:?}} {{:?}} {{:?}} {{:?}} {{:?}} {{}}", s_ascii, s_utf8, s_empty.len(), v_i32.len(), v_empty.len(), v_cap.len(), vv.len(), v_str.len(), vd.len(), hm.len(), hs.len(), bm.len(), bs.len(), bx.0, rc2, arc, cell.get(), hm_key.len(), rcell, opt_s, opt_none, sl, tup, n);
+    println!("{{r}} {{}} {{}} {{}} {{}} {{}} {{}} {{}} {{}} {{}} {{}} {{}} {{}} {{}} {{}} {{}} {{}} {{}} {{}} {{:?}} {{:?}} {{:?}} {{:?}} {{:?}} {{}}", s_ascii, s_utf8, s_empty.len(), v_i32.len(), v_empty.len(), v_cap.len(), vv.len(), v_str.len(), vd.len(), hm.len(), hs.len(), bm.len(), bs.len(), bx.0, rc2, arc, cell.get(), hm_key.len() + hm_del.len() + hs_del.len() + bm_del.len() + vd_del.len(), rcell, opt_s, opt_none, sl, tup, n);
 }}
 "#
     )
+}
+
+/// Build (if needed) the program for one size parameter: (exe, source file name, line of the stop).
+pub fn ensure_built(n: u64, wrap: u64) -> Result<(String, String, u64), String> {
+    let dir = crate::common::build_dir().join("std");
+    let _ = std::fs::create_dir_all(&dir);
+    let src = dir.join(format!("coll_{n}_{wrap}.rs"));
+    let exe = dir.join(format!("coll_{n}_{wrap}"));
+    let text = program(n, wrap);
+    let fresh = std::fs::read_to_string(&src).map(|t| t == text).unwrap_or(false) && exe.exists();
+    if !fresh {
+        std::fs::write(&src, &text).map_err(|e| e.to_string())?;
+        let out = std::process::Command::new("rustc").current_dir("/").args(["+1.89", "--edition", "2021", "-g", "-C", "opt-level=0", "-o"]).arg(&exe).arg(&src).output().map_err(|e| e.to_string())?;
+        if !out.status.success() {
+            return Err(String::from_utf8_lossy(&out.stderr).to_string());
+        }
+    }
+    let line = text.lines().position(|l| l.contains("let r = stop_here")).map(|i| i as u64 + 1).unwrap_or(0);
+    Ok((exe.display().to_string(), src.file_name().unwrap().to_string_lossy().to_string(), line))
 }
 
 /// canonical plain form of the debugger's value JSON (valw::vjson)
@@ -148,6 +191,10 @@ fn expected(n: u64) -> Vec<(&'static str, Value, &'static str)> {
         ("hm", map_of((0..n).map(|k| json!([s(k * 7), s(-(k as i64))])).collect()), "HashMap<u64, i64"),
         ("hm_key", map_of(vec![json!([[["a", "1"], ["b", "-1"]], {"s": "one"}]), json!([[["a", "2"], ["b", "-2"]], {"s": "two"}])]), "HashMap<"),
         ("hs", set_of((0..ni).map(|k| s(k * 3 - 5)).collect()), "HashSet<i16"),
+        ("hm_del", map_of((0..112u64).filter(|k| k % 3 == 0).map(|k| json!([s(k), s(k * k)])).collect()), "HashMap<u64, u64"),
+        ("hs_del", set_of((0..112u64).filter(|k| k % 3 == 0).map(|k| s(k * 2)).collect()), "HashSet<u32"),
+        ("bm_del", map_of((0..200u64).filter(|k| k % 5 == 0).map(|k| json!([s(k), s(k + 1)])).collect()), "BTreeMap<u16, u16"),
+        ("vd_del", json!((15..20u64).chain(100..110).map(s).collect::<Vec<_>>()), "VecDeque<u8"),
         ("bm", map_of((0..n * 10).map(|k| json!([s(k * 3), {"s": if k % 2 == 0 { "even" } else { "odd" }}])).collect()), "BTreeMap<u32, &str"),
         ("bs", set_of((0..ni * 10).map(|k| s(k * k - 50)).collect()), "BTreeSet<i64"),
         ("cell", s(-8), ""),
